@@ -1115,8 +1115,9 @@ func runSaturation(r *mon.Run) {
 				// brotli >= 2 and zstd other than "default" keep 10-50 MiB per encoder state: with the overflow
 				// compressed on the callers' goroutines that is a memory load of its own, not this property
 				satPlan{Codec: "br", API: apiAppendLevel, Level: 1, Load: load, Procs: 2},
-				satPlan{Codec: "zstd", API: apiAppendLevel, Level: fasthttp.CompressZstdDefault, Load: load, Procs: 2},
-				satPlan{Codec: "gzip", API: apiWritePlain, Level: best, Load: load, Procs: 2})
+				satPlan{Codec: "zstd", API: apiAppendLevel, Level: fasthttp.CompressZstdDefault, Load: load, Procs: 1},
+				// (every stackless.Writer owns a real encoder state from creation to release, whatever the tree does on overflow)
+				satPlan{Codec: "gzip", API: apiWritePlain, Level: best, Load: load, Procs: 1})
 		}
 		plans = append(plans, satPlan{Codec: "gzip", API: apiAppendLevel, Level: best, Load: 1.1, Procs: 4},
 			satPlan{Codec: "deflate", API: apiAppendLevel, Level: 1, Load: 1.05, Procs: 8})
@@ -1249,7 +1250,7 @@ func TestC22(t *testing.T) {
 	// The codec libraries allocate MiB-sized encoder states that fasthttp keeps in sync.Pools; with the
 	// default GC pacing the monitor's own garbage empties those pools every few milliseconds and the run
 	// is dominated by page faults. Pacing only; no effect on what is checked.
-	defer debug.SetGCPercent(debug.SetGCPercent(400))
+	defer debug.SetGCPercent(debug.SetGCPercent(150))
 	zstd0Safe := probeZstdLevel0(r)
 	r.Set("zstd_level0_safe_in_process", zstd0Safe)
 	phases := map[string]any{}
